@@ -193,6 +193,57 @@ def continuation_variants(model):
                 yield 'continuation', '%s@%d:all' % (path, i), specs, None
 
 
+def _split_top(text):
+    """Split the inside of a {...} literal at its top-level commas (strings and nested brackets respected)."""
+    parts, depth, cur, in_str, esc = [], 0, '', False, False
+    for ch in text:
+        if in_str:
+            cur += ch
+            if esc:
+                esc = False
+            elif ch == '\\':
+                esc = True
+            elif ch == '"':
+                in_str = False
+            continue
+        if ch == '"':
+            in_str = True
+        elif ch in '{[':
+            depth += 1
+        elif ch in '}]':
+            depth -= 1
+        if ch == ',' and depth == 0:
+            parts.append(cur.strip())
+            cur = ''
+        else:
+            cur += ch
+    if cur.strip():
+        parts.append(cur.strip())
+    return parts
+
+
+def example_map_variants(model):
+    """The multi-line forms of a map example value (lang_ref "Examples"): the literal on its own indented line after `key =`, and
+    one pair per line between the braces."""
+    files = _file_lines(model)
+    for k, (path, lines) in enumerate(files):
+        texts = [t for t, _ in lines]
+        for i, (t, cont) in enumerate(lines):
+            m = re.match(r'^( +)(\w+) = (\{.*\})$', t)
+            if cont or not m:
+                continue
+            ind, key, lit = m.group(1), m.group(2), m.group(3)
+            forms = [[ind + key + ' =', ind + '    ' + lit]]
+            pairs = _split_top(lit[1:-1])
+            if pairs:
+                forms.append([ind + key + ' = {'] + [ind + '    ' + p + (',' if j < len(pairs) - 1 else '') for j, p in enumerate(pairs)] + [ind + '}'])
+                forms.append([ind + key + ' =', ind + '    {'] + [ind + '        ' + p + (',' if j < len(pairs) - 1 else '') for j, p in enumerate(pairs)] + [ind + '    }'])
+            for fi, new_lines in enumerate(forms):
+                new = texts[:i] + new_lines + texts[i + 1:]
+                specs = [(p, _join(new) if j == k else _join([t2 for t2, _ in ls])) for j, (p, ls) in enumerate(files)]
+                yield 'example-map-layout', '%s@%d:form%d' % (path, i, fi), specs, None
+
+
 def expected_ns_docs(model, order=None):
     """{ns: doc} with namespace docs concatenated in file order (the documented order dependence)."""
     from .refsem import doc_unwrap
